@@ -583,6 +583,9 @@ func (ex *Explorer) runPath(h *ssa.Function, prefix []int) (out pathOutcome) {
 	ex.used = nil
 	ex.knownClass = ""
 	ex.leanAsserts = false
+	if ex.solver != nil {
+		ex.solver.nlFirst = false
+	}
 	in := ex.in
 	in.resetPath()
 	defer func() {
